@@ -1,5 +1,5 @@
 (* C03 -- named fairness metrics equal their first-principles definitions.
-   Only statements, `exact`, Print Assumptions.  All theorems are about the definitions of FL.Fairness
+   Only statements, `exact` (the two source-tie theorems: reflexivity), Print Assumptions.  All theorems are about the definitions of FL.Fairness
    that the correspondence run evaluates (derived / equalized_odds_* / derived_call), which are built
    from FL.BaseRates (C14) and FL.Aggregates (C02).  C03_fairness_source_tie: the composition of the six
    named functions, the keyword classification and transform chain of _DerivedMetric.__call__ and
